@@ -278,6 +278,7 @@ func (f *WorkFile) SetUse(dirs []*Use) {
 	for _, d := range f.Use {
 		if modulePath, ok := need[d.Path]; ok {
 			d.ModulePath = modulePath
+			delete(need, d.Path)
 		} else {
 			d.Syntax.markRemoved()
 			*d = Use{}
